@@ -101,4 +101,5 @@ OPTIN = [
   S('list-alias-concat-self', 'base', 'kind=list', 'maxlen=4', 'alias=5'),          # hangs on the pinned tree (60 s watchdog)
   S('array-alias-assign-self', 'base', 'kind=array', 'maxlen=4', 'alias=9'),        # proposed/seq-alias-assign-self.md
   S('list-alias-assign-self', 'base', 'kind=list', 'maxlen=4', 'alias=9'),
+  S('tuple-assign-from-view', 'base', 'kind=tuple', 'maxlen=4', 'viewassign=3'),    # proposed/seq-tuple-assign-from-view-appends.md
 ]
